@@ -23,6 +23,10 @@ Inductive case :=
    returned target *)
 | CCmdLookup (cmds : list cdef) (host : str) (tls : bool) (uri : str) (m : N) (globoff : bool)
              (impl : outcome (option (str * str)))
+(* as CCmdLookup, the table built by route.NewTableCustom from the same commands handed over
+   as a RouteDef list (the custom registry backend's constructor) *)
+| CCustomLookup (cmds : list cdef) (host : str) (tls : bool) (uri : str) (m : N) (globoff : bool)
+                (impl : outcome (option (str * str)))
 (* as CLookup, after the harness emptied the Targets of the routes whose ids are in [zeros]
    (a state no command sequence reaches): exercises the [n == 0 -> return nil] branch of
    Table.lookup against [lookup_cmd]; correspondence only *)
@@ -60,6 +64,41 @@ Definition id_of (o : option cand) : option N :=
 
 Definition is_some {A} (o : option A) : bool := match o with Some _ => true | None => false end.
 
+(* a table built by a command list ([tbl] = the model's table: cmd_table for NewTable,
+   custom_table for NewTableCustom) and one request *)
+Definition check_cmd_lookup (tbl : outcome table) (cmds : list cdef) (host : str) (tls : bool)
+           (uri : str) (mn : N) (globoff : bool) (impl : outcome (option (str * str))) : N :=
+      let src_ok (c : cdef) :=
+        let '(_, _, src, _, _, _) := c in
+        match src with
+        | [] => true
+        | _ => let '(h, p) := TableCmd.hostpath src in key_domain h && glob_domain p
+        end in
+      if negb (forallb src_ok cmds && subject_domain host && no_bracket host && subject_domain uri)
+      then v_disagree else
+      let m := matcher_of mn in
+      match tbl, impl with
+      | Ok t, Ok sel =>
+          let model := match lookup_cmd t host tls uri m globoff with
+                       | Some (k, p, _) => Some (k, p) | None => None end in
+          let pair_eqb (a b : str * str) := beq (fst a) (fst b) && beq (snd a) (snd b) in
+          let same := opt_eqb pair_eqb sel model in
+          let spec :=
+            match sel with
+            | None => spec_b t globoff tls m host uri None
+            | Some (k, p) =>
+                match find (fun c : cand => beq (fst (fst c)) k && beq (snd (fst c)) p) (all_routes t) with
+                | Some c => spec_b t globoff tls m host uri (Some c)
+                | None => false
+                end
+            end in
+          verdict same spec (region t globoff tls m host uri)
+                  (Nat.leb 2 (length (candidates t globoff tls m host uri)))
+      | Err _, Err _ => v_agree_trivial
+      | Panic, Panic => v_disagree_spec_fails
+      | _, _ => v_disagree
+      end.
+
 Definition check_case (c : case) : N :=
   match c with
   | CLookup defs host tls uri mn globoff impl =>
@@ -94,36 +133,9 @@ Definition check_case (c : case) : N :=
         end in
       verdict same spec None (is_some model)
   | CCmdLookup cmds host tls uri mn globoff impl =>
-      let src_ok (c : cdef) :=
-        let '(_, _, src, _, _, _) := c in
-        match src with
-        | [] => true
-        | _ => let '(h, p) := TableCmd.hostpath src in key_domain h && glob_domain p
-        end in
-      if negb (forallb src_ok cmds && subject_domain host && no_bracket host && subject_domain uri)
-      then v_disagree else
-      let m := matcher_of mn in
-      match cmd_table cmds, impl with
-      | Ok t, Ok sel =>
-          let model := match lookup_cmd t host tls uri m globoff with
-                       | Some (k, p, _) => Some (k, p) | None => None end in
-          let pair_eqb (a b : str * str) := beq (fst a) (fst b) && beq (snd a) (snd b) in
-          let same := opt_eqb pair_eqb sel model in
-          let spec :=
-            match sel with
-            | None => spec_b t globoff tls m host uri None
-            | Some (k, p) =>
-                match find (fun c : cand => beq (fst (fst c)) k && beq (snd (fst c)) p) (all_routes t) with
-                | Some c => spec_b t globoff tls m host uri (Some c)
-                | None => false
-                end
-            end in
-          verdict same spec (region t globoff tls m host uri)
-                  (Nat.leb 2 (length (candidates t globoff tls m host uri)))
-      | Err _, Err _ => v_agree_trivial
-      | Panic, Panic => v_disagree_spec_fails
-      | _, _ => v_disagree
-      end
+      check_cmd_lookup (cmd_table cmds) cmds host tls uri mn globoff impl
+  | CCustomLookup cmds host tls uri mn globoff impl =>
+      check_cmd_lookup (custom_table (Some cmds)) cmds host tls uri mn globoff impl
   | CLookupT defs zeros host tls uri mn globoff impl =>
       if negb (lookup_domain defs host uri) then v_disagree else
       let count (id : N) : N := if existsb (N.eqb id) zeros then 0 else id + 1 in
